@@ -203,3 +203,19 @@ PROPS["C08"] = Spec(
     bounds={"quick": "2-8 registrations, 4x2500", "thorough": "2-12 registrations, 16x20000"},
     assumptions=COMMON_ASSUMPTIONS,
 )
+
+PROPS["C09"] = Spec(
+    engine="harness.engines.taskfactory", quick_cases=2500, thorough_cases=20000,
+    rule="a task factory started in a root or nested context F (0-2 resources before, more added after; handler absent / truthy / "
+    "falsy / None-returning) and 2-14 (thorough 2-24) operations: spawn via start_task / start_task_soon (with task_status, names) "
+    "from F, from a nested child context holding other resources, or from inside another factory task; task outcomes return after "
+    "d / raise after d / wait for an event / run until cancelled; cancel(h), wait_finished(h), sleeps, set-event, and observations "
+    "of all_task_handles() at instants (k/64 offsets) where no task can be ending; F is left while 0-n tasks still run; optionally "
+    "one exception the handler does not claim; spawn attempts after F was left; oracle: handle set == spawned-and-not-ended, "
+    "wait_finished returns at max(call, end), cancel ends only its task, each task sees exactly F's resources as of factory start "
+    "in a fresh context inheriting from the factory's, F is left at max(end times) without cancelling, handler called once per "
+    "escaping exception, unclaimed exception surfaces from the root context; non-trivial = >=2 tasks alive at a cancel or at "
+    "teardown, or a spawn from a context other than F",
+    bounds={"quick": "<=8 tasks, 2-14 ops, 4x2500", "thorough": "2-24 ops, 16x20000"},
+    assumptions=COMMON_ASSUMPTIONS,
+)
